@@ -29,7 +29,9 @@ def gen_program(rng, force=None):
             runs.append(["ext", True, 2])
         else:
             # extern call inside an unsafe block: not recognised as extern-using, so the block IS executed
-            bad = rng.random() < 0.3
+            bad = rng.random() < 0.3 or (force is True and rng.random() < 0.5)
+            if bad and force is True:
+                plan_fail = False
             L.append("fn ext(x: int) -> int {\n    let mut r: int = 0\n    unsafe { set r (labs x) }\n    return r\n}")
             L.append("shadow ext {\n    assert (== (ext -3) %d)\n}" % (99 if bad else 3))
             runs.append(["ext", False, 1 if bad else 0])
@@ -62,9 +64,23 @@ def gen_program(rng, force=None):
                 body.append("    if (== 1 1) {\n        assert (== (f%d %d) %d)\n    } else {\n        assert (== 1 2)\n    }" % (k, x, val)); fails += 1 if wrong else 0
         L.append("shadow f%d {\n%s\n}" % (k, "\n".join(body)))
         runs.append(["f%d" % k, False, fails])
-    L.append("fn main() -> int {\n    (println (chk 1))\n    return 0\n}")
-    L.append("shadow main {\n    assert (== 1 1)\n}")
-    runs.append(["main", False, 0])
+    # functions without a shadow block, with names that resemble `main` / keywords
+    for nm in rng.sample(["main_loop", "mainline", "main2", "xmain", "shadowed", "asserted", "helper"], rng.choice([0, 0, 1, 2])):
+        L.append("fn %s(x: int) -> int {\n    return (+ x 1)\n}" % nm)
+        missing.append(nm)
+    main_bad = plan_fail and rng.random() < 0.3
+    main_items = ["fn main() -> int {\n    (println (chk 1))\n    return 0\n}",
+                  "shadow main {\n    assert (== 1 1)\n    assert (== (chk 2) %d)\n}" % (7 if main_bad else 2)]
+    main_run = ["main", False, 1 if main_bad else 0]
+    if rng.random() < 0.3 and len(L) >= 4:
+        # main (and its shadow block) first, helpers after it: the failing block may then be the last item of the file
+        head = [x for x in L if x.startswith("extern")]
+        rest = [x for x in L if not x.startswith("extern")]
+        L[:] = head + main_items + rest
+        runs.insert(0, main_run)
+    else:
+        L += main_items
+        runs.append(main_run)
     return "\n".join(L) + "\n", runs, missing
 
 
